@@ -112,6 +112,17 @@ def obligations():
 META = {
     'level': 'other',
     'explanation': 'One bounded facet of C02, decided on the real code: collect_runtime_types (MIR of the current tree) is executed on a function whose parameter type is a lazily built concrete type (constructor choices are solver decisions); every tuple and reference type occurring at any position of that type must be among the types it returns, because the backend names a Go struct for each of them (tast_ty_to_go_type) and declares only the returned ones. A miss is replayed through the CLI: the emitted Go text is scanned for helper type names that are used but not declared.',
-    'assumptions': ['everything else in C02 (Go typing of expressions, unused variables/imports, declaration order, closures) is outside this claim: there is no Go front end in the sandbox to confirm counterexamples against'],
+    'assumptions': ['O2.2 adds a second facet: block-level DCE (same exploration as C09 O9.2) never leaves a use of a variable whose declaration it removed', 'everything else in C02 (Go typing of expressions, unused variables/imports, closures) is outside this claim: there is no Go front end in the sandbox to confirm counterexamples against'],
     'trusted_base': ['mirsym MIR interpreter', 'library models listed per obligation', 'z3'],
 }
+
+# ----------------------------------------------------------------------------- O2.2 dead-code elimination never removes a declaration that the remaining code still uses
+def ob_dce_declarations(r, tier, seed, **kw):
+    """same exploration as C09 O9.2 (block-level DCE as translation validation); under C02 only the `output uses a variable it no longer declares` findings count"""
+    from props import c09
+    c09.ob_block_dce(r, tier, seed, **kw)
+    r.findings = [f for f in r.findings if f.key == 'undeclared-variable']
+_c02_obl = obligations
+def obligations():
+    return _c02_obl() + [Ob('O2.2-dce-declarations-switch', 'DCE keeps the declaration of every variable the remaining code uses: value switch with default', ob_dce_declarations, ('quick', 'thorough'), 30, dict(nstmts=1, depth='switch', forms=('atom', 'call'))),
+                         Ob('O2.2-dce-declarations-if', 'same: if / else', ob_dce_declarations, ('quick', 'thorough'), 20, dict(nstmts=1, depth=1, forms=('atom', 'call', 'div')))]
